@@ -120,7 +120,13 @@ def reopen_on(files, default, rules):
     SEAM.use(d)
     from traph import Traph
 
-    t = Traph(folder="/idx", default_webentity_creation_rule=default, webentity_creation_rules=dict(rules))
+    folder = "/idx"
+    if len(files) % 2 == 0 or sum(len(b) for b in files.values()) % 3 == 0:
+        # a path-like folder is as good as a string (deterministic choice from the surviving bytes)
+        import pathlib
+
+        folder = pathlib.PurePosixPath("/idx")
+    t = Traph(folder=folder, default_webentity_creation_rule=default, webentity_creation_rules=dict(rules))
     return t, d
 
 
